@@ -431,6 +431,8 @@ def run_parallel_case(case, consumer=None, setup=None):
                 mark_over(w, rec)
             w.ev("call_end", c, rec["outcome"]["kind"])
         w.cur_call = None
+        for hk in getattr(w, "after_hooks", ()):
+            hk(w, s, p)
         if case.get("managed"):
             try:
                 p.__exit__(None, None, None)
